@@ -114,7 +114,14 @@ class ExprMixin:
                 acc = z3.Lambda([kk], z3.If(z3.Select(b, kk) != ValSort.Absent, z3.Select(b, kk), z3.Select(acc, kk)))
             else:
                 kv = self.eval(k, fr)
-                acc = z3.Store(acc, coerce(kv, Str).t, to_val(v))
+                try:
+                    tv = to_val(v)
+                except Unsupported:
+                    # a value with no Val representation (Path object, ...): the key IS present, its value is an
+                    # unknown non-absent Val (sound over-approximation; nothing can be proved about that entry)
+                    tv = z3.Const(fresh_name("dictval"), ValSort)
+                    self.assume(tv != ValSort.Absent)
+                acc = z3.Store(acc, coerce(kv, Str).t, tv)
         return VDict(acc)
 
     def ex_JoinedStr(self, e, fr):
@@ -596,6 +603,12 @@ class ExprMixin:
                 return fv
             if ck is not NOCONST and obj.ty.as_dict:
                 raise RaiseSig(VExc("KeyError", key))
+            if obj.ty.as_dict and isinstance(key, VStr) and not getattr(obj.ty, "optkeys", False):
+                # symbolic key into a dict with constant keys (module-level table): case split, else KeyError
+                for k, val in obj.fields.items():
+                    if self.decide(eq(key, lift(k))):
+                        return val
+                raise RaiseSig(VExc("KeyError", key))
             raise Unsupported(f"subscript {key} on record {obj.ty.name}")
         if isinstance(obj, VConst) and isinstance(obj.py, dict):
             if ck is not NOCONST:
@@ -787,7 +800,7 @@ class ExprMixin:
         caps = []
         seen = set()
         for t in terms:
-            for c in _captured_subterms(t, x):
+            for c in (_captured_subterms(t, x) if not __import__("os").environ.get("PYVC_AB") else [k for k in _free_consts(t) if not k.eq(x)]):
                 if c.get_id() in seen:
                     continue
                 seen.add(c.get_id())
